@@ -69,13 +69,65 @@ def modelable(tr):
 
 def cterm(tr):
     c = tr["cfg"]
-    cfg = "(cfg %d%%nat %d %d %d %d %s %s)" % (c["w"], c["base"][0], c["base"][1], c["wseq"][0], c["wseq"][1],
-                                              clist([cN(x) for x in c["pre"][0]]), clist([cN(x) for x in c["pre"][1]]))
+    sh = c.get("shadow") or [[], []]
+    cfg = "(cfgs %d%%nat %d %d %d %d %s %s %s %s)" % (
+        c["w"], c["base"][0], c["base"][1], c["wseq"][0], c["wseq"][1],
+        clist([cN(x) for x in c["pre"][0]]), clist([cN(x) for x in c["pre"][1]]),
+        clist([cN(x) for x in sh[0] or []]), clist([cN(x) for x in sh[1] or []]))
     steps = clist(["(%s, %s)" % (cop(tr, st), cobs(tr, st)) for st in tr["steps"]])
     return "(%s, %s)" % (cfg, steps)
 
 
 # ----------------------------------------------------------------- monitors (the property's own statements)
+
+SITE = "post-handshake key update (post_handshake.go / traffic_keys.go / conn.go receive path)"
+# known finding K-C20-1: reassembly is keyed by message_seq only and fed by unprotected records during the handshake
+SITE_SHADOW = "internal/fragmentbuffer Push/Pop + conn.go bufferHandshakeRecord (post-handshake KeyUpdate shadowed by an " \
+              "unauthenticated fragment planted during the handshake)"
+MON_SHADOW = "keyupdate-acked-not-applied"
+
+
+def finding_key(tr, m):
+    """(site, signature) of a monitor result on a trace"""
+    if m[0] == MON_SHADOW:
+        return SITE_SHADOW, {"monitor": MON_SHADOW}
+    return SITE, {"monitor": m[0], "variant": tr["variant"]}
+
+
+def describe_write_ahead(tr, k, a):
+    """side a's write epoch overtook its peer's read epoch in step k: say which KeyUpdate was acknowledged
+    without being applied and what happened to the payloads written afterwards"""
+    recs, steps = tr["recs"], tr["steps"]
+    st = steps[k]
+    e = st["epochs"]
+    w, r = (e[0], e[3]) if a == 0 else (e[2], e[1])
+    me = "client" if a == 0 else "server"
+    txt = "step %d: %s now writes under epoch %d while %s's receive epoch is %d" % (k, SIDE[a], w, SIDE[1 - a], r)
+    calls = [cid for aa, cid in st["done"] if aa == a]
+    if calls:
+        txt += "; UpdateKeys call %d of %s returned nil" % (calls[0], SIDE[a])
+    if st["op"] == "d" and recs[st["rec"]]["kind"] == "ack":
+        named = [(ee, qq) for ee, qq in recs[st["rec"]]["acks"] or []]
+        kus = [rj for rj in recs if rj["kind"] == "ku" and rj["from"] == me and (rj["epoch"], rj["seq"]) in named]
+        if kus:
+            txt += " on an ACK naming record (epoch %d, seq %d) = KeyUpdate message %d, which %s acknowledged " \
+                   "without applying it" % (kus[0]["epoch"], kus[0]["seq"], kus[0]["msg"], SIDE[1 - a])
+    pl = tr["cfg"].get("plant")
+    if pl:
+        txt += " (an unprotected epoch-0 fragment {type 24, message_seq %d, %s} was sent to the %s after genuine " \
+               "datagram %d of the handshake)" % (pl["msg"], "complete" if pl["form"] == 0 else "first byte of 2",
+                                                   pl["victim"], pl["after"])
+    handed = lost = 0
+    for st2 in steps[k + 1:]:
+        if st2["op"] == "d" and recs[st2["rec"]]["from"] == me and recs[st2["rec"]]["kind"] == "app" \
+                and recs[st2["rec"]]["epoch"] >= w:
+            handed += 1
+            if not st2["read"]:
+                lost += 1
+    txt += "; afterwards %d application records of %s reached %s over the network, %d were never read" % (
+        handed, SIDE[a], SIDE[1 - a], lost)
+    return txt
+
 
 def monitor_trace(tr):
     """returns None or (monitor name, description) for a serial trace"""
@@ -144,6 +196,11 @@ def monitor_trace(tr):
             if not ok:
                 return "update-before-ack", "step %d: UpdateKeys call %d of %s returned nil without an ACK of its " \
                                             "KeyUpdate arriving (op %s)" % (k, cid, SIDE[a], st["op"])
+        # success of UpdateKeys means the peer has the new generation: a side never writes under an epoch its
+        # peer has not authorised (C20_epochs_in_step); otherwise everything it writes from now on is lost
+        for a, (w, r) in ((0, (e[0], e[3])), (1, (e[2], e[1]))):
+            if w > r:
+                return MON_SHADOW, describe_write_ahead(tr, k, a)
         if st["op"] in ("d", "x"):
             # delivered if it arrives in time: a record whose generation the receiver holds (and has authorised),
             # not accepted before, ahead of or fewer than W behind the newest accepted number of its epoch
@@ -303,7 +360,7 @@ def run(chk):
     vlib.cleanup(out_c)
     vlib.cleanup(out_f)
     found_input = False
-    site = "post-handshake key update (post_handshake.go / traffic_keys.go / conn.go receive path)"
+    site = SITE
     for rc, o, nm in ((rc1, o1, "TestVerifC20Trace"), (rc2, o2, "TestVerifC20Conc"), (rc3, o3, "TestVerifC20FinalAck")):
         if rc != 0:
             kind = vlib.classify_go_failure(o)
@@ -314,18 +371,27 @@ def run(chk):
                 chk.broken("correspondence harness %s no longer runs against /repo (%s)" % (nm, kind), o)
     rerun = "VERIF_SEED=%s bin/check C20 --tier %s" % (chk.seed, chk.tier)
 
-    # implementation-side monitors: the property's own statements
+    # implementation-side monitors: the property's own statements (one report per distinct signature)
+    reported = set()
+    monitor_hits = collections.Counter()
     for tr in traces:
         m = monitor_trace(tr)
         if m:
-            found_input = True
-            chk.finding(site, {"monitor": m[0], "variant": tr["variant"]}, m[1],
-                        {"how": "DTLS 1.3 client/server in a synctest bubble; `steps` are executed one at a time "
-                                "(uk = UpdateKeys, w = Write, d = hand record `rec` to its destination, x = hand a "
-                                "harness-sealed future-generation record, t = virtual time passes and the side "
-                                "retransmits); `recs` are all emitted records opened with the sender's keys",
-                         "case": {k: tr[k] for k in ("variant", "case", "cfg", "steps", "recs")}, "rerun": rerun})
-            break
+            fsite, fsig = finding_key(tr, m)
+            monitor_hits[m[0]] += 1
+            key = repr((fsite, sorted(fsig.items())))
+            if key in reported:
+                continue
+            reported.add(key)
+            if chk.finding(fsite, fsig, m[1],
+                           {"how": "DTLS 1.3 client/server in a synctest bubble; `steps` are executed one at a time "
+                                   "(uk = UpdateKeys, w = Write, d = hand record `rec` to its destination, x = hand a "
+                                   "harness-sealed future-generation record, t = virtual time passes and the side "
+                                   "retransmits); `recs` are all emitted records opened with the sender's keys; "
+                                   "cfg.plant (if any) = the unprotected fragment an off-path sender injected "
+                                   "during the handshake",
+                            "case": {k: tr[k] for k in ("variant", "case", "cfg", "steps", "recs")}, "rerun": rerun}):
+                found_input = True
     for c in concs:
         m = monitor_conc(c)
         if m:
@@ -398,8 +464,15 @@ def run(chk):
             stats["max_epoch_%d" % min(max(tr["steps"][-1]["epochs"]), 9)] += 1
             if any(tr["cfg"].get("preset") or []):
                 stats["long_first_epoch_preset"] += 1
+            pl = tr["cfg"].get("plant")
+            if pl:
+                stats["planted_%s_msg+%d_form%d" % (pl["victim"], pl["j"], pl["form"])] += 1
+                e = tr["steps"][-1]["epochs"]
+                if e[0] > e[3] or e[2] > e[1]:
+                    stats["planted_fragment_shadowed_a_keyupdate"] += 1
         chk.leg_info("trace", variants=dict(variants), suites=sorted({tr["cfg"]["suite"] for tr in traces}),
-                     stats=dict(stats), chain_checked=sum(g for tr in traces for g in tr["gens"]))
+                     stats=dict(stats), chain_checked=sum(g for tr in traces for g in tr["gens"]),
+                     monitor_hits=dict(monitor_hits))
     cn = [c for c in concs if len(c["calls"]) >= 2 and c["loss"] > 0]
     chk.count("conc", sum(len(c["delivered"]) for c in concs),
               [(c["case"], c["writers"], c["loss"], len(c["recs"])) for c in cn],
@@ -466,7 +539,7 @@ def replay(chk, path):
     traces = vlib.read_jsonl(out_t)
     vlib.cleanup(out_t)
     vlib.cleanup(tmp)
-    site = "post-handshake key update (post_handshake.go / traffic_keys.go / conn.go receive path)"
+    site = SITE
     if rc != 0 or not traces:
         chk.broken("replay harness failed (%s)" % vlib.classify_go_failure(o), o)
         chk.finish(level="proof", rule="replay")
@@ -476,7 +549,8 @@ def replay(chk, path):
     print("replayed %d steps; observable outputs %s the recording" % (len(tr["steps"]), "equal" if same else "DIFFER from"))
     m = monitor_trace(tr)
     if m:
-        chk.finding(site, {"monitor": m[0], "variant": tr["variant"]}, m[1], {"case": tr})
+        fsite, fsig = finding_key(tr, m)
+        chk.finding(fsite, fsig, m[1], {"case": tr})
     ok_model, mout = vlib.coq_make(["theories/Ku/C20Run.vo"])
     why = modelable(tr)
     if ok_model and not why:
